@@ -28,9 +28,9 @@ Check(r) ==
                   on == r.snippet /\ r.radius > 0 IN
               IF ~on THEN (IF ws # <<>> THEN "snippet-shown-although-switched-off" ELSE "ok")
               ELSE IF Len(ws) > Len(r.locs) THEN "more-windows-than-locations"
-              ELSE IF ws = <<>> THEN
-                   (* the string entry points have the whole text: a located error must show its line *)
-                   (IF r.entry # "reader" /\ r.locs # <<>> /\ r.locs[1].line <= Len(ls) /\ r.locs[1].col <= Len(ls[r.locs[1].line]) + 1
+              ELSE IF Len(ws) < Len(r.locs) THEN
+                   (* the string entry points have the whole text: every located place must show its line *)
+                   (IF r.entry # "reader" /\ \A k \in 1..Len(r.locs) : r.locs[k].line <= Len(ls) /\ r.locs[k].col <= Len(ls[r.locs[k].line]) + 1
                     THEN (IF HasLoneCR(r.text) THEN "lone-cr:" ELSE "") \o "no-snippet-for-a-located-error" ELSE "ok")
               ELSE LET vs == [k \in 1..Len(ws) |->
                                  LET w == SubSeq(r.out, ws[k], WinEnd(r.out, ws[k])) IN
